@@ -282,7 +282,7 @@ func c17Exhaustive(c *Ctx, maxLevel, depth int, vkeys, probes []string, first sl
 			present := i < len(m.ents) && m.ents[i].K == k
 			var ops []slOp
 			if present {
-				ops = []slOp{{Kind: "S", K: k, V: "qq", Tomb: true, H: 1}, {Kind: "D", K: k}}
+				ops = []slOp{{Kind: "S", K: k, V: "qq", Tomb: true, H: 1}, {Kind: "S", K: k, V: m.ents[i].V, Tomb: !m.ents[i].Tomb, H: 1}, {Kind: "D", K: k}}
 			} else {
 				for h := 1; h <= maxLevel; h++ {
 					ops = append(ops, slOp{Kind: "S", K: k, V: "p", H: h})
@@ -348,7 +348,9 @@ func c17Search(c *Ctx, maxLevel, depth int, vkeys, probes []string, first slOp) 
 				i := cur.find(k)
 				present := i < len(cur.ents) && cur.ents[i].K == k
 				if present {
-					ops = append(ops, slOp{Kind: "S", K: k, V: "qq", Tomb: true, H: 1}, slOp{Kind: "S", K: k, V: "", H: 1}, slOp{Kind: "D", K: k})
+					// overwrite with another value, with an empty value, and with the SAME value and the other tombstone flag
+					ops = append(ops, slOp{Kind: "S", K: k, V: "qq", Tomb: true, H: 1}, slOp{Kind: "S", K: k, V: "", H: 1},
+						slOp{Kind: "S", K: k, V: cur.ents[i].V, Tomb: !cur.ents[i].Tomb, H: 1}, slOp{Kind: "D", K: k})
 				} else {
 					for h := 1; h <= maxLevel; h++ {
 						ops = append(ops, slOp{Kind: "S", K: k, V: "p", H: h}, slOp{Kind: "S", K: k, V: "qq", Tomb: true, H: h})
